@@ -68,6 +68,7 @@ GhostInit ==
       handedTo  |-> [j \in Nodes |-> 0],
       confAt    |-> <<>>,        \* sequence of [k, conf]: configuration after applying index k
       smAt      |-> <<>>,        \* sequence of [k, sm]
+      lease     |-> [on |-> FALSE, leader |-> 0, members |-> {}, term |-> 0],
       probe     |-> "" ]
 
 PromiseTerm(m) ==      \* the term a released message commits its sender to
@@ -510,6 +511,14 @@ C16_NoSelfTermBump ==
         \/ /\ evt.ev \in {"Tick", "Campaign"} /\ Q.term = P.term + 1
            /\ QuorumOf({an}, P.conf)
 
+(* (c) scenario: after a LeaseStart marker the leader L of term T (the maximal term anywhere, no transfer
+   pending) and the members M (a majority together with L) exchange heartbeats on schedule; whatever the
+   remaining nodes do, L keeps leading T and no member of M changes its term *)
+C16_NoDisruption ==
+    gh.lease.on =>
+        /\ up[gh.lease.leader] /\ node[gh.lease.leader].role = "L" /\ node[gh.lease.leader].term = gh.lease.term
+        /\ \A j \in gh.lease.members : up[j] /\ node[j].term = gh.lease.term
+
 -----------------------------------------------------------------------------
 (* C17  Leadership transfer                                                  *)
 
@@ -606,6 +615,7 @@ Violations ==
     \cup Chk("C15.SendOnlyIfNeeded", C15_SendOnlyIfNeeded) \cup Chk("C15.ResumeAfterReport", C15_ResumeAfterReport)
     \cup Chk("C15.SnapshotState", C15_SnapshotState)
     \cup Chk("C16.PreVoteReqInert", C16_PreVoteReqInert) \cup Chk("C16.NoSelfTermBump", C16_NoSelfTermBump)
+    \cup Chk("C16.NoDisruption", C16_NoDisruption)
     \cup Chk("C17.TimeoutNowOnlyWhenCaughtUp", C17_TimeoutNowOnlyWhenCaughtUp)
     \cup Chk("C17.NoProposalsDuringTransfer", C17_NoProposalsDuringTransfer)
     \cup Chk("C17.AbortOnTimeout", C17_AbortOnTimeout) \cup Chk("C17.TargetIsVoter", C17_TargetIsVoter)
